@@ -89,9 +89,16 @@ def project(final, objs):
 
 
 def observe(report, objs, which="simple"):
-    from pedal.resolvers import simple, full
+    from pedal.resolvers import simple, full, sectional
     try:
-        final = (simple if which == "simple" else full).resolve(report=report)
+        if which == "sectional":
+            finals = sectional.resolve(report=report)
+            # every generated feedback has the same parent (no group): one section, or none when nothing triggered
+            final = finals.get(None) if finals else None
+            if final is None:
+                return {"shown": 0, "correct": True, "score": 100, "sectional_empty": True}
+        else:
+            final = (simple if which == "simple" else full).resolve(report=report)
     except Exception as e:  # resolving must never raise (C01)
         return {"shown": -9, "correct": False, "score": 0, "error": "%s: %s" % (type(e).__name__, e)}
     return project(final, objs)
@@ -103,11 +110,13 @@ def replay_chunk(cases, extra):
     setup_repo_path()
     out = []
     for idx, rec in cases:
-        for which in ("simple", "full"):
+        for which in ("simple", "full", "sectional"):
             report, objs = build(rec["fbs"], rec["supp"], style=idx)
             obs = observe(report, objs, which)
             exp = rec["exp"]
-            bad = [k for k in ("shown", "correct", "score") if obs[k] != exp[k]]
+            # the sectional resolver only sees triggered feedback, so its score is not the documented sum
+            keys = ("shown", "correct") if which == "sectional" else ("shown", "correct", "score")
+            bad = [k for k in keys if obs[k] != exp[k]]
             if bad:
                 out.append({"case": rec, "resolver": which, "observed": obs, "expected": exp, "fields": bad,
                             "style": idx % 2})
